@@ -269,6 +269,15 @@ fn main() {
         eprintln!("usage: fstsim run <PROP> [--tier quick|thorough] | replay <file> | digests <PROP> <n> | selftest");
         std::process::exit(2);
     }
+    if args[1] == "c14-cold" {
+        // a process whose FIRST contact with the library is opening bytes it
+        // did not build (see mem::cold_child); nothing else may run before it
+        use std::io::Read;
+        let mut input = Vec::new();
+        std::io::stdin().read_to_end(&mut input).expect("harness: read stdin");
+        println!("{}", mem::cold_child(&input));
+        return;
+    }
     if let Err(e) = model::self_test() {
         exec::harness_error(e);
     }
